@@ -226,6 +226,11 @@ def check(tier: str) -> Result:
             if not ok:
                 why += f" -- not the documented horizon ({bound_desc})"
         res.add("C11.R6", site, fn, f"LAST when the counter reaches the structural horizon ({bound_desc})", ok, why)
+    # ---- R7: the counter belongs to the state VALUE: a step that writes into its argument advances the caller's counter
+    # (re-stepping a kept state then ends the episode early); and the limit a user passes through make() is the one used
+    from .common import borrow, TIME_LIMITED as _TL
+    n_b = borrow(res, "c02", {"C02.R3": "C11.R7"}, envs=_TL, only_if=lambda ob: "argument of reset/step" in ob.detail)
+    n_b += borrow(res, "c18", {"C18.R3": "C11.R7", "C18.R7": "C11.R7"}, only_if=lambda ob: "make" in ob.func or "time_limit" in ob.detail)
     res.analysed = {"environments_with_time_limit": names, "count": len(names)}
     res.assumptions = ["Python `or` / conditional-expression semantics; integer step counters",
                        "time_limit is a positive int (0/None select the documented default)"]
